@@ -67,6 +67,16 @@ def generate(st):
     cfg = {'funcs': funcs, 'mode': 'retry' if retry else 'normal', 'faulty': faulty, 'decs': decs,
            'n_ops': sw.choice([6, 10, 16, 24, 36]), 'p13': sw.choice([0.0, 0.05, 0.15]) if faulty else 0.0,
            'containers': sw.random() < 0.5}
+    # memo-stress configuration: few decorators around a cache, a small argument alphabet so that keys repeat, f raising
+    # often, and every call replayed on the other wrappers of the same function (memo dicts are inherited on re-wrapping)
+    stress = (not retry) and faulty and sw.random() < 0.35
+    cfg['stress'] = stress
+    if stress:
+        cfg['decs'] = sorted(set(['cache'] + sw.sample(['try', 'back', 'kws', 'loop'], sw.randint(1, 3))))
+        cfg['p13'] = 0.3
+        cfg['containers'] = False
+        for s_ in funcs:
+            s_['arm'] = 'on13'
     ops = []
     chains = []       # generator-side model of the pool: (fid, [layer types])
 
@@ -75,6 +85,8 @@ def generate(st):
             return g.choice(CONTAINERS)
         if g.random() < cfg['p13']:
             return 13
+        if cfg.get('stress'):
+            return g.choice([1, 1, 2])
         return g.choice([v for v in SCALARS if v != 13])
 
     def gen_dec():
@@ -158,6 +170,12 @@ def generate(st):
                     if chains[j][0] == fid and ('kws' in chains[j][1] or not c2['extra'] or funcs[fid]['varkw']):
                         c2['obj'] = j
                 ops.append(c2)
+            if cfg.get('stress'):
+                for j in range(len(chains)):
+                    if j != i and chains[j][0] == fid and g.random() < 0.6 and (not c['extra'] or 'kws' in chains[j][1] or funcs[fid]['varkw']):
+                        c3 = _copy.deepcopy(c)
+                        c3['obj'] = j
+                        ops.append(c3)
         elif r < 0.86:
             cands = [i for i, (fid, types) in enumerate(chains) if types and types[0] == 'cache']
             if cands:
